@@ -248,7 +248,7 @@ def one_to_many_case(draw, tier="quick"):
     spec = {"nodes": nodes, "fb": None}
     cm = {str(len(nodes) - 1): draw(st.sampled_from(["fut", "fut", "coro", "sync"]))}
     acts = draw(schedule.actions_strategy(spec, max_actions=24, min_actions=4))
-    md = draw(st.lists(st.sampled_from([1, 1, 2, 0]), min_size=1, max_size=4))
+    md = draw(st.lists(st.sampled_from([1, 1, 2, 0, 4]), min_size=1, max_size=4))
     return {"spec": spec, "cmodes": cm, "actions": acts, "md": md}
 
 
